@@ -7,6 +7,7 @@ import Flax.Proofs.Traverse
 import Flax.Proofs.TraverseInv
 import Flax.Model.State
 import Flax.Proofs.State
+import Flax.Proofs.DictEq
 
 set_option linter.unusedSectionVars false
 
@@ -747,6 +748,534 @@ example : replaceByPure tryConvertInt (fun _ v => v)
     = .ok [(.str "layers", .dict [(.int 0, .leaf 10), (.int 1, .leaf 20)])] := by rfl
 
 end StateLaws
+
+/-! ## Python dict equality (`DictEq`): the round trips restated as the property reads
+
+`DictEq` (Flax/Model/Traverse.lean) is `==` on nested dicts: equal leaves; same key set and `DictEq` values under
+every key, whatever the insertion order. On well-formed trees it coincides with "same complete content
+(`flatten(keep_empty_nodes=True)`) up to order", which is what the theorems above establish. -/
+
+/-- **bridging lemma**: on well-formed trees `DictEq` ⇔ the keep-empty flattened forms are permutations of each other -/
+theorem dictEq_iff_content_perm (t u : Tree κ α) (ht : WF t) (hu : WF u) :
+    DictEq t u ↔ (relT true noLeaf t).Perm (relT true noLeaf u) :=
+  dictEq_iff_content t u ht hu
+
+/-- the same for two dicts, in terms of `Content` -/
+theorem dictEq_dict_iff_content_perm (xs ys : List (κ × Tree κ α)) (hx : WFKvs xs) (hy : WFKvs ys) :
+    DictEq (.dict xs) (.dict ys) ↔ (relKvs true noLeaf xs).Perm (relKvs true noLeaf ys) :=
+  dictEq_dict_iff xs ys hx hy
+
+/-- `DictEq` is an equivalence relation on well-formed trees -/
+theorem dictEq_refl (t : Tree κ α) (ht : WF t) : DictEq t t :=
+  (dictEq_iff_content t t ht ht).mpr (List.Perm.refl _)
+
+theorem dictEq_symm (t u : Tree κ α) (ht : WF t) (hu : WF u) (h : DictEq t u) : DictEq u t :=
+  (dictEq_iff_content u t hu ht).mpr ((dictEq_iff_content t u ht hu).mp h).symm
+
+theorem dictEq_trans (t u w : Tree κ α) (ht : WF t) (hu : WF u) (hw : WF w) (h1 : DictEq t u) (h2 : DictEq u w) :
+    DictEq t w :=
+  (dictEq_iff_content t w ht hw).mpr
+    (((dictEq_iff_content t u ht hu).mp h1).trans ((dictEq_iff_content u w hu hw).mp h2))
+
+/-- insertion order is irrelevant, at any depth -/
+example : DictEq (.dict [("a", .leaf 1), ("b", .dict [("c", .leaf 2), ("d", .dict [])])] : Tree String Nat)
+    (.dict [("b", .dict [("d", .dict []), ("c", .leaf 2)]), ("a", .leaf 1)]) := by
+  simp only [DictEq, EntriesIn, Dict.get]
+  refine ⟨_, rfl, ?_, ⟨_, rfl, rfl⟩, ⟨_, rfl, _, rfl, ?_, ⟨_, rfl, rfl⟩, ⟨_, rfl, _, rfl, ?_, trivial⟩, trivial⟩, trivial⟩
+  all_goals (intro k; repeat' split) <;> simp_all [Dict.get]
+
+/-- …but an extra empty dict is a difference -/
+example : ¬ DictEq (.dict [("a", .leaf 1)] : Tree String Nat) (.dict [("a", .leaf 1), ("e", .dict [])]) := by
+  simp only [DictEq, EntriesIn, Dict.get]
+  rintro ⟨ys, hys, hk, _⟩
+  cases hys
+  have := hk "e" (by decide)
+  revert this
+  decide
+
+/-- **`unflatten_dict(m) == t` for every dict `m` equal to `flatten_dict(t, keep_empty_nodes=True)`**, i.e. for any
+insertion order of the flat dict: the result is `t` as a Python dict. (With the flattened order itself the
+result is `t` literally: `unflatten_flatten_keep`.) -/
+theorem unflatten_flatten_keep_dictEq (kvs : List (κ × Tree κ α)) (hwf : WF (.dict kvs))
+    (fl m : List (Path κ × FVal κ α)) (hfl : flatten true noLeaf (.dict kvs) = .ok fl) (hm : m.Perm fl) :
+    ∃ t', unflatten m = .ok t' ∧ WF t' ∧ DictEq t' (.dict kvs) := by
+  have hwf' : WFKvs kvs := by simpa [WF] using hwf
+  have hpf := relKvs_prefixFree true kvs noLeaf hwf'
+  rw [aux_flatten_root true kvs hpf.nodup_paths] at hfl
+  have hfl' : fl = relKvs true noLeaf kvs := (Except.ok.inj hfl).symm
+  subst hfl'
+  have hok : ∀ e ∈ m, e.1 ≠ [] ∧ OkVal true e.2 := fun e he =>
+    ⟨relKvs_paths_ne_nil true noLeaf kvs e (hm.mem_iff.mp he), relKvs_true_okval kvs e (hm.mem_iff.mp he)⟩
+  obtain ⟨kvs', h1, h2⟩ := build_flat true m [] (by
+    simp only [relKvs, List.nil_append]
+    exact (List.Perm.pairwise_iff (fun h => Incomp.symm h) hm).mpr hpf) hok
+  simp only [relKvs, List.nil_append] at h2
+  have hwf2 : WFKvs kvs' := build_wf m [] kvs' (by simp [WFKvs]) (fun e he => okval_wf true e.2 (hok e he).2) h1
+  refine ⟨.dict kvs', ?_, by simpa [WF] using hwf2, ?_⟩
+  · show Except.map Tree.dict (build [] m) = _
+    rw [h1]; rfl
+  · exact (dictEq_dict_iff kvs' kvs hwf2 hwf').mpr (h2.trans hm)
+
+section StateEq
+open Flax.State
+variable {β : Type}
+
+private theorem aux_fromFlat_wf (m : Flat α) (s' : SMap α) (h : fromFlat m = .ok s') : WFKvs s' := by
+  simp only [fromFlat] at h
+  cases hb : unflattenLoop (fun p => Except.ok p) ([] : SMap α)
+      ((Dict.ofList m).map (fun pa => (pa.1, FVal.val (.leaf pa.2)))) with
+  | error e => simp [hb, liftE] at h
+  | ok a =>
+    simp only [hb, liftE, Except.ok.injEq] at h
+    subst h
+    refine build_wf _ [] a (by simp [WFKvs]) ?_ hb
+    intro e he
+    simp only [List.mem_map] at he
+    obtain ⟨x, _, rfl⟩ := he
+    simp [FVal.toTree, WF]
+
+private theorem aux_content_leaves (s : SMap α) : (leaves s).map leafEntry = relKvs false noLeaf s :=
+  (relKvs_false_leaves s).symm
+
+/-- two well-formed states with the same leaves are equal as Python dicts once their leaf-less sub-dicts are removed -/
+theorem dictEq_prune_of_leaves_perm (a b : SMap α) (ha : WFKvs a) (hb : WFKvs b)
+    (h : (leaves a).Perm (leaves b)) : DictEq (prune (.dict a)) (prune (.dict b)) := by
+  simp only [prune]
+  rw [dictEq_dict_iff _ _ (wf_normKvs a ha).1 (wf_normKvs b hb).1, relKvs_true_norm, relKvs_true_norm,
+    ← aux_content_leaves, ← aux_content_leaves]
+  exact h.map _
+
+/-- **`from_flat_state(to_flat_state(s)) == prune(s)`** as Python dicts: State → FlatState → State loses nothing but
+leaf-less sub-dicts (and nothing at all when `s` has none: `prune_eq_self`) -/
+theorem state_flat_roundtrip_eq (s : SMap α) (hwf : WFKvs s) :
+    ∃ s', fromFlat (toFlat s) = .ok s' ∧ WFKvs s' ∧ DictEq (.dict s') (prune (.dict s)) := by
+  obtain ⟨s', h1, h2, _⟩ := state_flat_roundtrip s hwf
+  have hw := aux_fromFlat_wf _ _ h1
+  exact ⟨s', h1, hw, dictEq_prune_of_content s' s hw hwf (by rw [← aux_content_leaves]; exact h2)⟩
+
+/-- **`to_pure_dict(s) == prune(s with extract applied to every leaf)`** -/
+theorem to_pure_eq (ex : α → α) (s : SMap α) (hwf : WFKvs s) :
+    ∃ pd, toPure ex s = .ok pd ∧ WFKvs pd ∧
+      (Content pd).Perm (((leaves s).map (fun e => (e.1, ex e.2))).map leafEntry) := by
+  obtain ⟨pd, h1, h2, _⟩ := to_pure_spec ex s hwf
+  exact ⟨pd, h1, aux_fromFlat_wf _ _ h1, h2⟩
+
+private theorem aux_wf_update : ∀ (new acc : SMap α), WFKvs acc → WFKvs new → WFKvs (Dict.update acc new) := by
+  intro new
+  induction new with
+  | nil => intro acc h _; simpa [Dict.update] using h
+  | cons x rest ih =>
+    intro acc h hn
+    simp only [WFKvs] at hn
+    simp only [Dict.update, List.foldl_cons]
+    exact ih (Dict.set acc x.1 x.2) (wf_set acc h x.1 x.2 hn.2.1) hn.2.2
+
+/-- **`replace_by_pure_dict(s, to_pure_dict(s))` leaves `s` equal to itself** as a Python dict, up to leaf-less
+sub-dicts (exactly, when `s` has none), for every key set (repaired definition, finding F14) -/
+theorem pure_dict_roundtrip_eq (conv : Key → Key) (ex : α → β) (repl : α → β → α) (hrepl : ∀ a, repl a (ex a) = a)
+    (s : SMap α) (hwf : WFKvs s) :
+    ∃ pd s', toPure ex s = .ok pd ∧ replaceByPure conv repl s pd = .ok s' ∧ WFKvs s' ∧
+      DictEq (prune (.dict s')) (prune (.dict s)) := by
+  obtain ⟨pd, hpd, _, hl⟩ := to_pure_spec ex s hwf
+  obtain ⟨pd', s', hpd', hr, hls⟩ := pure_dict_roundtrip conv ex repl hrepl s hwf
+  rw [hpd] at hpd'
+  have e : pd = pd' := Except.ok.inj hpd'
+  subst e
+  have hw : WFKvs s' := by
+    -- s' = Dict.update s (from_flat_state …)
+    simp only [replaceByPure, bind, Except.bind] at hr
+    split at hr
+    · cases hr
+    · rename_i cur hcur
+      split at hr
+      · cases hr
+      · rename_i new hnew
+        have := Except.ok.inj hr
+        subst this
+        exact aux_wf_update new s hwf (aux_fromFlat_wf _ _ hnew)
+  exact ⟨pd, s', hpd, hr, hw, dictEq_prune_of_leaves_perm s' s hw hwf hls⟩
+
+/-- **`merge_state(*split_state(s, filters)) == prune(s)`** as Python dicts -/
+theorem merge_inverse_of_split_eq (preds : List (SPath → α → Bool)) (s : SMap α) (hwf : WFKvs s)
+    (s0 : SMap α) (srest : List (SMap α)) (h : splitState preds s = .ok (s0 :: srest)) :
+    ∃ s', mergeState s0 srest = .ok s' ∧ DictEq (prune (.dict s')) (prune (.dict s)) ∧
+      (srest ≠ [] → DictEq (.dict s') (prune (.dict s))) := by
+  obtain ⟨s', h1, h2, h3⟩ := merge_inverse_of_split preds s hwf s0 srest h
+  have hw : WFKvs s' := by
+    cases srest with
+    | nil =>
+      simp only [mergeState, Except.ok.injEq] at h1
+      subst h1
+      -- s0 is one of the states produced by from_flat_state
+      simp only [splitState, bind, Except.bind] at h
+      split at h
+      · cases h
+      · rename_i states hst
+        split at h
+        · cases h
+        · have hs := Except.ok.inj h
+          have hmem : s0 ∈ states := by
+            have : s0 ∈ states.take preds.length := by rw [hs]; simp
+            exact List.mem_of_mem_take this
+          -- every element of a successful mapM fromFlat is well-formed
+          have : ∀ (l : List (Flat α)) (ys : List (SMap α)), l.mapM fromFlat = .ok ys → ∀ y ∈ ys, WFKvs y := by
+            intro l
+            induction l with
+            | nil => intro ys hy y hyy; simp [pure, Except.pure] at hy; subst hy; simp at hyy
+            | cons x r ih =>
+              intro ys hy y hyy
+              simp only [List.mapM_cons, bind, Except.bind] at hy
+              cases hx : fromFlat x with
+              | error e => simp [hx] at hy
+              | ok sx =>
+                simp only [hx] at hy
+                cases hr : r.mapM fromFlat with
+                | error e => simp [hr] at hy
+                | ok sr =>
+                  simp only [hr, pure, Except.pure, Except.ok.injEq] at hy
+                  subst hy
+                  simp only [List.mem_cons] at hyy
+                  rcases hyy with rfl | hyy
+                  · exact aux_fromFlat_wf _ _ hx
+                  · exact ih sr hr y hyy
+          exact this _ states hst s0 hmem
+    | cons r rs =>
+      rw [aux_merge_unfold s0 (r :: rs) (by simp)] at h1
+      exact aux_fromFlat_wf _ _ h1
+  refine ⟨s', h1, dictEq_prune_of_leaves_perm s' s hw hwf h3, ?_⟩
+  intro _
+  exact dictEq_prune_of_content s' s hw hwf (by rw [← aux_content_leaves]; exact h2)
+
+/-- **`a - b == prune(a restricted to the paths absent from b)`** as Python dicts (repaired `diff`, finding F2) -/
+theorem diff_spec_eq (a b : SMap α) (hwf : WFKvs a) (hb : b ≠ []) :
+    ∃ s', diff a b = .ok s' ∧ WFKvs s' ∧
+      DictEq (.dict s')
+        (prune (.dict (keepPathsKvs (fun p => !decide (p ∈ (leaves b).map Prod.fst)) a))) := by
+  obtain ⟨s', h1, h2, _⟩ := diff_spec a b hwf hb
+  have hw : WFKvs s' := by
+    have hbe : b.isEmpty = false := by
+      cases b with
+      | nil => exact absurd rfl hb
+      | cons _ _ => rfl
+    simp only [diff, hbe, Bool.false_eq_true, ↓reduceIte] at h1
+    exact aux_fromFlat_wf _ _ h1
+  refine ⟨s', h1, hw, ?_⟩
+  refine dictEq_prune_of_content s' _ hw (wf_keepPathsKvs a _ hwf).1 ?_
+  rw [← aux_content_leaves]
+  show (relKvs true noLeaf s').Perm ((leavesKvs (keepPathsKvs _ a)).map leafEntry)
+  rw [leaves_keepPathsKvs]
+  exact h2
+
+/-! ### State set laws as algebra -/
+
+private theorem aux_leaves_of_content (s' : SMap α) (l : Flat α) (h : (Content s').Perm (l.map leafEntry)) :
+    (leaves s').Perm l := by
+  have := leafItems_perm h
+  rwa [leafItems_relKvs_true, leafItems_map_leafEntry] at this
+
+private theorem aux_mapM_wf : ∀ (l : List (Flat α)) (ys : List (SMap α)), l.mapM fromFlat = .ok ys →
+    ∀ y ∈ ys, WFKvs y := by
+  intro l
+  induction l with
+  | nil => intro ys hy y hyy; simp [pure, Except.pure] at hy; subst hy; simp at hyy
+  | cons x r ih =>
+    intro ys hy y hyy
+    simp only [List.mapM_cons, bind, Except.bind] at hy
+    cases hx : fromFlat x with
+    | error e => simp [hx] at hy
+    | ok sx =>
+      simp only [hx] at hy
+      cases hr : r.mapM fromFlat with
+      | error e => simp [hr] at hy
+      | ok sr =>
+        simp only [hr, pure, Except.pure, Except.ok.injEq] at hy
+        subst hy
+        simp only [List.mem_cons] at hyy
+        rcases hyy with rfl | hyy
+        · exact aux_fromFlat_wf _ _ hx
+        · exact ih sr hr y hyy
+
+private theorem aux_split_parts (preds : List (SPath → α → Bool)) (s : SMap α) (hwf : WFKvs s)
+    (states : List (SMap α)) (h : splitState preds s = .ok states) :
+    (states.flatMap leaves).Perm (leaves s) ∧ (∀ st ∈ states, WFKvs st) ∧
+    (∀ st ∈ states, (Content st).Perm ((leaves st).map leafEntry)) := by
+  have hex : ∀ e ∈ leaves s, firstIdx preds e.1 e.2 < preds.length := by
+    intro e he
+    have hle := firstIdx_le preds e.1 e.2
+    rcases Nat.lt_or_ge (firstIdx preds e.1 e.2) preds.length with hlt | hge
+    · exact hlt
+    · have := split_non_exhaustive preds s hwf ⟨e, he, by omega⟩
+      rw [this] at h
+      cases h
+  obtain ⟨states', h1, h2⟩ := split_first_match preds s hwf hex
+  rw [h1] at h
+  have hs : states' = states := Except.ok.inj h
+  subst hs
+  refine ⟨?_, ?_, ?_⟩
+  · have h3 := Forall2.flatMap_perm (f := fun i => bucket preds i (leaves s)) (g := leaves)
+      (fun i st hr => hr.2) h2
+    have hb := buckets_perm (fun (e : SPath × α) => firstIdx preds e.1 e.2) (leaves s) preds.length
+    refine h3.trans (hb.trans ?_)
+    rw [List.filter_eq_self.mpr]
+    intro e he
+    simpa using hex e he
+  · intro st hst
+    simp only [splitState, bind, Except.bind] at h1
+    split at h1
+    · cases h1
+    · rename_i all hall
+      split at h1
+      · cases h1
+      · have hs := Except.ok.inj h1
+        have : st ∈ all := List.mem_of_mem_take (by rw [hs]; exact hst)
+        exact aux_mapM_wf _ all hall st this
+  · intro st hst
+    obtain ⟨i, hi⟩ := List.getElem_of_mem hst
+    obtain ⟨hi1, hi2⟩ := hi
+    have hlen := h2.length_eq
+    have hr := h2.get i (by omega) hi1
+    rw [hi2] at hr
+    exact hr.1.trans (hr.2.symm.map _)
+
+/-- **split, then merge in ANY argument order** (the parts have pairwise disjoint path sets): the result holds
+exactly the leaves of `s`, i.e. it is `prune s` as a Python dict -/
+theorem split_merge_any_order (preds : List (SPath → α → Bool)) (s : SMap α) (hwf : WFKvs s)
+    (states : List (SMap α)) (h : splitState preds s = .ok states)
+    (s0 : SMap α) (srest : List (SMap α)) (hperm : (s0 :: srest).Perm states) :
+    ∃ s', mergeState s0 srest = .ok s' ∧ (leaves s').Perm (leaves s) ∧
+      DictEq (prune (.dict s')) (prune (.dict s)) := by
+  obtain ⟨hall, hwfs, hcont⟩ := aux_split_parts preds s hwf states h
+  have hall' : ((s0 :: srest).flatMap leaves).Perm (leaves s) := (hperm.flatMap_right leaves).trans hall
+  cases hsr : srest with
+  | nil =>
+    subst hsr
+    have hl : (leaves s0).Perm (leaves s) := by simpa using hall'
+    have hw0 : WFKvs s0 := hwfs s0 (hperm.mem_iff.mp (by simp))
+    exact ⟨s0, rfl, hl, dictEq_prune_of_leaves_perm s0 s hw0 hwf hl⟩
+  | cons r rs =>
+    rw [← hsr, aux_merge_unfold s0 srest (by rw [hsr]; simp)]
+    have hpf : PrefixFree ((s0 :: srest).flatMap leaves) := PrefixFree.perm hall'.symm (leaves_prefixFree s hwf)
+    rw [Dict.ofList_of_nodup _ hpf.nodup_paths]
+    obtain ⟨s', e1, _, e3⟩ := fromFlat_spec _ hpf (fun e he => leaves_paths_ne_nil s e (hall'.mem_iff.mp he))
+    have hw := aux_fromFlat_wf _ _ e1
+    exact ⟨s', e1, e3.trans hall', dictEq_prune_of_leaves_perm s' s hw hwf (e3.trans hall')⟩
+
+/-- **`filter_state` is idempotent**: filtering the `i`-th part again with the same filters returns that part at
+position `i` and empty states everywhere else -/
+theorem filter_idempotent (preds : List (SPath → α → Bool)) (s : SMap α) (hwf : WFKvs s)
+    (states : List (SMap α)) (h : filterState preds s = .ok states) (i : Nat) (hi : i < states.length) :
+    ∃ states2, filterState preds states[i] = .ok states2 ∧
+      Forall2 (fun j st2 => (leaves st2).Perm (if j = i then leaves states[i] else [])) (List.range preds.length)
+        states2 := by
+  obtain ⟨states', h1, h2⟩ := filter_first_match preds s hwf
+  rw [h1] at h
+  have hs : states' = states := Except.ok.inj h
+  subst hs
+  have hlen := h2.length_eq
+  have hr := h2.get i (by omega) hi
+  simp only [List.getElem_range] at hr
+  have hwi : WFKvs states'[i] := by
+    simp only [filterState] at h1
+    exact aux_mapM_wf _ states' h1 _ (List.getElem_mem hi)
+  obtain ⟨states2, h3, h4⟩ := filter_first_match preds states'[i] hwi
+  refine ⟨states2, h3, h4.imp ?_⟩
+  intro j st2 hj
+  refine hj.2.trans ?_
+  have hb : (bucket preds j (leaves states'[i])).Perm (bucket preds j (bucket preds i (leaves s))) :=
+    hr.2.filter _
+  refine hb.trans ?_
+  by_cases hji : j = i
+  · subst hji
+    simp only [↓reduceIte]
+    have : bucket preds j (bucket preds j (leaves s)) = bucket preds j (leaves s) := by
+      simp only [bucket, List.filter_filter, Bool.and_self]
+    rw [this]
+    exact hr.2.symm
+  · simp only [hji, ↓reduceIte]
+    have : bucket preds j (bucket preds i (leaves s)) = [] := by
+      simp only [bucket, List.filter_filter, List.filter_eq_nil_iff, Bool.and_eq_true, beq_iff_eq, not_and]
+      intro e _ h1 h2
+      exact hji (h1.symm.trans h2)
+    rw [this]
+
+private theorem aux_diff_leaves (a b : SMap α) (hwf : WFKvs a) :
+    ∃ s', diff a b = .ok s' ∧ WFKvs s' ∧
+      (leaves s').Perm ((leaves a).filter (fun e => !decide (e.1 ∈ (leaves b).map Prod.fst))) := by
+  cases b with
+  | nil =>
+    refine ⟨a, rfl, hwf, ?_⟩
+    simp only [leavesKvs, List.map_nil, List.not_mem_nil, decide_false, Bool.not_false]
+    rw [List.filter_eq_self.mpr (fun _ _ => rfl)]
+  | cons x r =>
+    obtain ⟨s', h1, hw, _⟩ := diff_spec_eq a (x :: r) hwf (by simp)
+    obtain ⟨s'', h1', h2, _⟩ := diff_spec a (x :: r) hwf (by simp)
+    rw [h1] at h1'
+    have e : s' = s'' := Except.ok.inj h1'
+    subst e
+    exact ⟨s', h1, hw, aux_leaves_of_content s' _ h2⟩
+
+private theorem aux_lastVal_isSome {γ : Type} (l : List (SPath × γ)) (k : SPath) :
+    (∃ v, lastVal l k = some v) ↔ k ∈ l.map Prod.fst := by
+  induction l with
+  | nil => simp [lastVal]
+  | cons x rest ih =>
+    simp only [lastVal, List.map_cons, List.mem_cons]
+    cases hr : lastVal rest k with
+    | some w =>
+      have : k ∈ rest.map Prod.fst := ih.mp ⟨w, hr⟩
+      simp [this]
+    | none =>
+      have hn : ¬ k ∈ rest.map Prod.fst := fun hm => by
+        obtain ⟨v, hv⟩ := ih.mpr hm
+        rw [hr] at hv; cases hv
+      by_cases hx : x.1 = k
+      · simp [hx]
+      · have hx' : ¬ k = x.1 := fun e => hx e.symm
+        simp [hx, hx', hn]
+
+private theorem aux_lastVal_append {γ : Type} (l1 l2 : List (SPath × γ)) (k : SPath) :
+    lastVal (l1 ++ l2) k = match lastVal l2 k with
+      | some v => some v
+      | none => lastVal l1 k := by
+  induction l1 with
+  | nil => simp [lastVal]; cases lastVal l2 k <;> rfl
+  | cons x rest ih =>
+    simp only [List.cons_append, lastVal, ih]
+    cases lastVal l2 k <;> rfl
+
+private theorem aux_or (b c : SMap α) (hwb : WFKvs b)
+    (hcompat : ∀ e1 ∈ [b, c].flatMap leaves, ∀ e2 ∈ [b, c].flatMap leaves, e1.1 = e2.1 ∨ Incomp e1.1 e2.1) :
+    ∃ u, stateOr b c = .ok u ∧ WFKvs u ∧
+      (∀ p x, (p, x) ∈ leaves u ↔ lastVal (leaves b ++ leaves c) p = some x) := by
+  cases c with
+  | nil =>
+    refine ⟨b, rfl, hwb, ?_⟩
+    intro p x
+    have hnd := (leaves_prefixFree b hwb).nodup_paths
+    simp only [leavesKvs, List.append_nil]
+    rw [← Dict.mem_ofList, Dict.ofList_of_nodup _ hnd]
+  | cons y r =>
+    obtain ⟨u, h1, h2⟩ := merge_later_wins b [y :: r] (by simp) hcompat
+    have hw : WFKvs u := by
+      rw [aux_merge_unfold b [y :: r] (by simp)] at h1
+      exact aux_fromFlat_wf _ _ h1
+    refine ⟨u, h1, hw, ?_⟩
+    intro p x
+    rw [h2]
+    simp
+
+/-- **`a - b - c = a - (b | c)`**: both sides hold exactly the leaves of `a` whose path is neither in `b` nor in `c`;
+as Python dicts they are equal up to leaf-less sub-dicts (`diff` returns `a` itself, unpruned, when the subtrahend is
+empty) -/
+theorem diff_diff_eq_diff_or (a b c : SMap α) (hwa : WFKvs a) (hwb : WFKvs b)
+    (hcompat : ∀ e1 ∈ [b, c].flatMap leaves, ∀ e2 ∈ [b, c].flatMap leaves, e1.1 = e2.1 ∨ Incomp e1.1 e2.1) :
+    ∃ d1 d2 u d3, diff a b = .ok d1 ∧ diff d1 c = .ok d2 ∧ stateOr b c = .ok u ∧ diff a u = .ok d3 ∧
+      (leaves d2).Perm (leaves d3) ∧ DictEq (prune (.dict d2)) (prune (.dict d3)) := by
+  obtain ⟨d1, h1, hw1, hl1⟩ := aux_diff_leaves a b hwa
+  obtain ⟨d2, h2, hw2, hl2⟩ := aux_diff_leaves d1 c hw1
+  obtain ⟨u, h3, _, hu⟩ := aux_or b c hwb hcompat
+  obtain ⟨d3, h4, hw3, hl3⟩ := aux_diff_leaves a u hwa
+  have hpu : ∀ p, p ∈ (leaves u).map Prod.fst ↔ (p ∈ (leaves b).map Prod.fst ∨ p ∈ (leaves c).map Prod.fst) := by
+    intro p
+    constructor
+    · intro hp
+      simp only [List.mem_map] at hp
+      obtain ⟨⟨q, x⟩, hx, rfl⟩ := hp
+      have := (aux_lastVal_isSome _ q).mp ⟨x, (hu q x).mp hx⟩
+      simpa [List.map_append] using this
+    · intro hp
+      have : p ∈ (leaves b ++ leaves c).map Prod.fst := by simpa [List.map_append] using hp
+      obtain ⟨x, hx⟩ := (aux_lastVal_isSome _ p).mpr this
+      exact List.mem_map_of_mem (f := Prod.fst) ((hu p x).mpr hx)
+  have hperm : (leaves d2).Perm (leaves d3) := by
+    refine hl2.trans (((hl1.filter _).trans ?_).trans hl3.symm)
+    rw [List.filter_filter]
+    have : (fun (e : SPath × α) => (!decide (e.1 ∈ (leaves c).map Prod.fst)) && !decide (e.1 ∈ (leaves b).map Prod.fst))
+        = (fun e => !decide (e.1 ∈ (leaves u).map Prod.fst)) := by
+      funext e
+      have := hpu e.1
+      by_cases hb : e.1 ∈ (leaves b).map Prod.fst <;> by_cases hc : e.1 ∈ (leaves c).map Prod.fst <;>
+        simp_all
+    rw [this]
+  exact ⟨d1, d2, u, d3, h1, h2, h3, h4, hperm, dictEq_prune_of_leaves_perm d2 d3 hw2 hw3 hperm⟩
+
+/-- **`(a | b) - b ⊆ a`**, precisely: `(a | b) - b` holds exactly the leaves of `a` whose path is not in `b`
+(it is `a - b`); in particular every one of its leaves is a leaf of `a` at the same path -/
+theorem or_diff_subset (a b : SMap α) (hwa : WFKvs a)
+    (hcompat : ∀ e1 ∈ [a, b].flatMap leaves, ∀ e2 ∈ [a, b].flatMap leaves, e1.1 = e2.1 ∨ Incomp e1.1 e2.1) :
+    ∃ u d, stateOr a b = .ok u ∧ diff u b = .ok d ∧
+      ∀ p x, (p, x) ∈ leaves d ↔ ((p, x) ∈ leaves a ∧ p ∉ (leaves b).map Prod.fst) := by
+  obtain ⟨u, h1, hwu, hu⟩ := aux_or a b hwa hcompat
+  obtain ⟨d, h2, _, hl⟩ := aux_diff_leaves u b hwu
+  refine ⟨u, d, h1, h2, ?_⟩
+  intro p x
+  rw [hl.mem_iff, List.mem_filter, hu p x, aux_lastVal_append]
+  have hnd := (leaves_prefixFree a hwa).nodup_paths
+  have ha : lastVal (leaves a) p = some x ↔ (p, x) ∈ leaves a := by
+    rw [← Dict.mem_ofList, Dict.ofList_of_nodup _ hnd]
+  constructor
+  · rintro ⟨h3, h4⟩
+    have hnb : p ∉ (leaves b).map Prod.fst := by simpa using h4
+    have : lastVal (leaves b) p = none := by
+      cases hv : lastVal (leaves b) p with
+      | none => rfl
+      | some v => exact absurd ((aux_lastVal_isSome _ p).mp ⟨v, hv⟩) hnb
+    rw [this] at h3
+    exact ⟨ha.mp h3, hnb⟩
+  · rintro ⟨h3, h4⟩
+    have : lastVal (leaves b) p = none := by
+      cases hv : lastVal (leaves b) p with
+      | none => rfl
+      | some v => exact absurd ((aux_lastVal_isSome _ p).mp ⟨v, hv⟩) h4
+    rw [this]
+    exact ⟨ha.mpr h3, by simpa using h4⟩
+
+end StateEq
+
+/-! ## `nnx.traversals`: the twins
+
+`flatten_mapping` / `unflatten_mapping` are line for line the algorithm of `flatten_dict` / `unflatten_dict` (the only
+differences are the accepted container types: any `Mapping`, and any iterable of pairs for `unflatten_mapping`); both
+are modelled by the single definitions `flattenWith` / `unflattenWith`, so every theorem above is about both, and the
+correspondence run drives both libraries against that one model. `flatten_to_sequence` is the one function with a
+different shape (a list, no `keep_empty_nodes`, no `sep`); it is `flattenToSeq`. -/
+
+/-- `flatten_to_sequence(t, is_leaf)` lists exactly the items of `flatten_mapping(t, is_leaf=is_leaf)`, in the same order -/
+theorem flattenToSeq_eq_flatten (isLeaf : Path κ → Tree κ α → Bool) (kvs : List (κ × Tree κ α))
+    (hwf : WF (.dict kvs)) : flattenToSeq isLeaf (.dict kvs) = flatten false isLeaf (.dict kvs) := by
+  have hwf' : WFKvs kvs := by simpa [WF] using hwf
+  simp only [flattenToSeq, flatten, flattenWith]
+  have hnd : ((flatT false isLeaf (.dict kvs) []).map Prod.fst).Nodup := by
+    cases hr : isLeaf [] (.dict kvs) with
+    | true => simp [flatT, hr]
+    | false =>
+      rw [flatT_root false isLeaf kvs hr]
+      exact (relKvs_prefixFree false kvs isLeaf hwf').nodup_paths
+  have : (flatT false isLeaf (.dict kvs) []).map (fun pv => (id pv.1, pv.2)) = flatT false isLeaf (.dict kvs) [] := by
+    simp
+  rw [this, Dict.ofList_of_nodup _ hnd]
+
+/-- `unflatten_mapping(flatten_to_sequence(t, is_leaf))` (a list of pairs is accepted) is the same normal form -/
+theorem unflatten_flattenToSeq (isLeaf : Path κ → Tree κ α → Bool) (kvs : List (κ × Tree κ α))
+    (hwf : WF (.dict kvs)) (hroot : isLeaf [] (.dict kvs) = false) :
+    (flattenToSeq isLeaf (.dict kvs) >>= unflatten) = .ok (.dict (normKvs false isLeaf kvs)) := by
+  rw [flattenToSeq_eq_flatten isLeaf kvs hwf]
+  exact unflatten_flatten_norm false isLeaf kvs hwf hroot
+
+/-- the empty root: `flatten_dict({}, …)` / `flatten_mapping({}, …)` is `{}` for every `keep_empty_nodes`, every
+`is_leaf` that is false at the root and every key encoding — with a separator too (no `'' ↦ empty_node` entry) -/
+theorem flatten_root_empty {ρ : Type} [DecidableEq ρ] (key : Path κ → ρ) (keep : Bool)
+    (isLeaf : Path κ → Tree κ α → Bool) (hroot : isLeaf [] (.dict []) = false) :
+    flattenWith key keep isLeaf (.dict ([] : List (κ × Tree κ α))) = .ok [] := by
+  simp [flattenWith, flatT_root keep isLeaf [] hroot, relKvs, Dict.ofList]
+
+/-- …and an empty dict below the top level is kept as `empty_node` under its joined key, the empty-string key
+included: `flatten_dict({'': {}}, keep_empty_nodes=True, sep='/') == {'': empty_node}` -/
+theorem flatten_sep_empty_key_kept :
+    flattenSep "/" true noLeaf (.dict [("", .dict [])] : Tree String Nat) = .ok [("", .emptyNode)] ∧
+    (flattenSep "/" true noLeaf (.dict [("", .dict [])] : Tree String Nat) >>= unflattenSep "/")
+      = .ok (.dict [("", .dict [])]) := by
+  refine ⟨rfl, rfl⟩
 
 /-! ## the hypotheses are satisfiable by non-trivial instances -/
 
